@@ -48,7 +48,7 @@ THEOREMS = [_P + n for n in (
     "set_frame", "append_frame", "replace_frame", "hash_touches_only_caches", "eq_touches_only_caches",
     "frame_set", "frame_append", "frame_replace", "frame_pop", "copy_equal_disjoint", "copy_original_untouched",
     "transform_copy_pure", "expand_result_disjoint", "expand_nothing_to_do_still_copies", "expand_returns_through_the_copy",
-    "builder_copy_both_pure", "where_and_cte_assemblies_in_region", "builders_thread_copy",
+    "builder_copy_both_pure", "where_and_cte_assemblies_in_region", "builders_thread_copy", "generate_overrides_pass_same_object",
     "generated_copy_defaults_ok", "copy_false_sites_allowed",
 )]
 
@@ -1491,6 +1491,21 @@ def builder_tables():
     return sorted(rows), sorted(bad), sorted(users)
 
 
+def scan_generate_overrides(REPO):
+    rows=[]
+    for f in sorted(__import__('glob').glob(os.path.join(REPO,'sqlglot','generators','*.py'))+__import__('glob').glob(os.path.join(REPO,'sqlglot','dialects','*.py'))):
+        t=_ast.parse(open(f).read())
+        for cls in _ast.walk(t):
+            if not isinstance(cls, _ast.ClassDef): continue
+            for fn in cls.body:
+                if isinstance(fn, _ast.FunctionDef) and fn.name in ("generate",) and os.path.basename(f) not in ("dialect.py",):
+                    first = fn.args.args[1].arg if len(fn.args.args) > 1 else "?"
+                    assigns=[_ast.unparse(n) for n in _ast.walk(fn) if isinstance(n, _ast.Assign) and any(isinstance(tg, _ast.Name) and tg.id==first for tg in n.targets)]
+                    dels=[_ast.unparse(n) for n in _ast.walk(fn) if isinstance(n, _ast.Call) and isinstance(n.func, _ast.Attribute) and n.func.attr in ("generate","sql")]
+                    rows.append(f"{os.path.relpath(f, REPO)}:{cls.name}.{fn.name}({first}) | assigns: {'; '.join(assigns) or '-'} | delegates: {'; '.join(sorted(dels)) or '-'}")
+    return sorted(rows)
+
+
 def translate(chk: Check) -> str:
     def parse(rel):
         return _ast.parse(open(os.path.join(REPO, *rel.split("/")), encoding="utf-8").read())
@@ -1550,6 +1565,10 @@ def translate(chk: Check) -> str:
     lines.append("/-- every call of `.sql(…)` / `.generate(…)` inside sqlglot that does not pass the default `copy=True` "
                  "(file:function:callee:value) -/")
     lines.append("def copyFalseSites : List String := " + c08._lean_list(c08._lean_str(x) for x in sites))
+    govr = scan_generate_overrides(REPO)
+    chk.cov["generate_overrides"] = govr
+    lines.append("/-- every dialect generator that overrides `generate`: reassignments of its tree parameter and its delegate calls -/")
+    lines.append("def generateOverrides : List String := " + c08._lean_list(c08._lean_str(x) for x in govr))
     rows, bad, users = builder_tables()
     chk.cov["builder_users"] = users
     lines.append("/-- per `_apply_*` helper: its maybe_copy / maybe_parse / and_ / delegated calls with their `copy` argument -/")
